@@ -28,6 +28,8 @@ type vC19Op struct {
 	Arg  string
 }
 
+const vC19Rounds = 40
+
 func vC19Val(g int, ts int64) float64 { return float64(g*100000) + float64(ts)/4 }
 
 func TestVerifC19Engine(t *testing.T) {
@@ -104,7 +106,8 @@ func TestVerifC19Engine(t *testing.T) {
 			}
 		}
 		sharedKey := rapid.Bool().Draw(rt, "sharedNewKey")
-		sharedOK := make([]bool, g)
+		barrier := make([]int64, vC19Rounds)
+		sharedAcked := make([]int64, vC19Rounds*16)
 		var raceTypes []byte
 		raceOK := make([]bool, g)
 		if typeRace {
@@ -112,6 +115,7 @@ func TestVerifC19Engine(t *testing.T) {
 				raceTypes = append(raceTypes, rapid.SampledFrom(vTypes).Draw(rt, "raceType"))
 			}
 		}
+		ctx := fmt.Sprintf(" [index %s, %d goroutines, typeRace %v, sharedNewKey %v]", idx, g, typeRace, sharedKey)
 		start := make(chan struct{})
 		var wg sync.WaitGroup
 		for i := 0; i < g; i++ {
@@ -127,9 +131,18 @@ func TestVerifC19Engine(t *testing.T) {
 				}()
 				<-start
 				if sharedKey {
-					// every goroutine's first write creates (or races to create) the same new series/field key
-					err := b.store.WriteToShard(1, []modelsPoint{vPt{M: "m3", Tags: map[string]string{"host": "shared"}, Fields: map[string]vVal{"f0": vF(float64(i))}, TS: int64(i)}.point()})
-					sharedOK[i] = err == nil
+					// rounds of aligned first writes: in every round all goroutines create (or race to create) the
+					// same brand-new series/field key; a spin barrier lines them up to make the race likely
+					for r := 0; r < vC19Rounds; r++ {
+						atomic.AddInt64(&barrier[r], 1)
+						for atomic.LoadInt64(&barrier[r]) < int64(g) {
+							runtime.Gosched()
+						}
+						err := b.store.WriteToShard(1, []modelsPoint{vPt{M: "m3", Tags: map[string]string{"host": fmt.Sprintf("s%d", r)}, Fields: map[string]vVal{"f0": vF(float64(i))}, TS: int64(i)}.point()})
+						if err == nil {
+							atomic.AddInt64(&sharedAcked[r*16+i], 1)
+						}
+					}
 				}
 				if typeRace {
 					var v vVal
@@ -207,27 +220,29 @@ func TestVerifC19Engine(t *testing.T) {
 			rt.Fatalf("%s program of %d goroutines did not finish within 120s (goroutine dump in the work dir)", verifkit.Sig("concurrent-deadlock"), g)
 		}
 		if failure != "" {
-			rt.Fatalf("%s %s", verifkit.Sig(failSig), failure)
+			rt.Fatalf("%s %s%s", verifkit.Sig(failSig), failure, ctx)
 		}
 		// after the join: every acknowledged point is readable
 		for i := 0; i < g; i++ {
 			readCheck(-1, i, acked[i])
 		}
 		if failure != "" {
-			rt.Fatalf("%s after join: %s", verifkit.Sig(failSig), failure)
+			rt.Fatalf("%s after join: %s%s", verifkit.Sig(failSig), failure, ctx)
 		}
 		if sharedKey {
-			rows, err := b.readField(1, "m3", "f0", true, influxql.MinTime, influxql.MaxTime, "")
-			if err != nil {
-				rt.Fatalf("%s reading the shared series: %v", verifkit.Sig("concurrent-read-error"), err)
-			}
-			have := map[int64]bool{}
-			for _, r := range rows {
-				have[r.TS] = true
-			}
-			for i := 0; i < g; i++ {
-				if sharedOK[i] && !have[int64(i)] {
-					rt.Fatalf("%s goroutine %d's acknowledged first write to the new shared key m3,host=shared (ts=%d) is not readable; %d of %d points present", verifkit.Sig("acknowledged-write-lost"), i, i, len(rows), g)
+			for r := 0; r < vC19Rounds; r++ {
+				rows, err := b.readField(1, "m3", "f0", true, influxql.MinTime, influxql.MaxTime, fmt.Sprintf("host = 's%d'", r))
+				if err != nil {
+					rt.Fatalf("%s reading the shared series: %v", verifkit.Sig("concurrent-read-error"), err)
+				}
+				have := map[int64]bool{}
+				for _, row := range rows {
+					have[row.TS] = true
+				}
+				for i := 0; i < g; i++ {
+					if sharedAcked[r*16+i] > 0 && !have[int64(i)] {
+						rt.Fatalf("%s goroutine %d's acknowledged first write to the new key m3,host=s%d (ts=%d) is not readable; %d of %d points present%s", verifkit.Sig("acknowledged-write-lost"), i, r, i, len(rows), g, ctx)
+					}
 				}
 			}
 		}
@@ -254,7 +269,7 @@ func TestVerifC19Engine(t *testing.T) {
 				if raceOK[i] {
 					nok++
 					if ft != 0 && raceTypes[i] != ft {
-						rt.Fatalf("%s goroutine %d wrote the new field as %c and was acknowledged, but the field has type %c", verifkit.Sig("conflicting-write-acknowledged"), i, raceTypes[i], ft)
+						rt.Fatalf("%s goroutine %d wrote the new field as %c and was acknowledged, but the field has type %c (types written %q, acknowledged %v, stored rows %v; index %s; engine keys of m2: %v)", verifkit.Sig("conflicting-write-acknowledged"), i, raceTypes[i], ft, string(raceTypes), raceOK, rows, idx, vC19Keys(b, "m2"))
 					}
 				}
 			}
@@ -274,6 +289,26 @@ func TestVerifC19Engine(t *testing.T) {
 			stats.Sample(nil)
 		}
 	})
+}
+
+func vC19Keys(b *vBed, prefix string) []string {
+	e, err := b.engine(1)
+	if err != nil {
+		return nil
+	}
+	var out []string
+	for _, k := range e.Cache.Keys() {
+		if strings.HasPrefix(string(k), prefix) {
+			out = append(out, "cache:"+string(k)+fmt.Sprint(e.Cache.Values(k)))
+		}
+	}
+	e.FileStore.WalkKeys(nil, func(k []byte, typ byte) error {
+		if strings.HasPrefix(string(k), prefix) {
+			out = append(out, fmt.Sprintf("tsm:%s(type %d)", k, typ))
+		}
+		return nil
+	})
+	return out
 }
 
 func rowFloat(r vRow) float64 { return mathFloat64frombits(r.V.F) }
